@@ -171,6 +171,11 @@ fn op_alphabet() -> Vec<BOp> {
 }
 
 fn random_op(rng: &mut Rng, big: bool) -> BOp {
+    // `set_content_length` is outside the builder calls C05 lists, but it is part of the public API and of the
+    // model: exercised for the correspondence (the reader oracle skips responses it makes non-self-delimiting)
+    if rng.chance(1, 25) {
+        return BOp::Len(*rng.pick(&[None, Some(0), Some(3), Some(-1), Some(2147483647)]));
+    }
     match rng.below(9) {
         0 | 1 => {
             let n = match rng.below(6) {
